@@ -166,19 +166,20 @@ Qed.
 Definition fpiece (text : string) (ts : list ctoken) : Prop :=
   forall rest, eol rest -> lex None (text ++ rest)%string = prep ts (lex None rest).
 
-Lemma lex_joined_functions : forall texts tss, Forall2 fpiece texts tss ->
+Lemma lex_joined_functions : forall sep,
+  (exists r, sep = String nl r) -> (forall X, lex None (sep ++ X)%string = lex None X) ->
+  forall texts tss, Forall2 fpiece texts tss ->
   forall rest, eol rest ->
-  lex None (py_join (String nl (String nl "")) texts ++ rest)%string = prep (List.concat tss) (lex None rest).
+  lex None (py_join sep texts ++ rest)%string = prep (List.concat tss) (lex None rest).
 Proof.
-  induction 1 as [|x ts xs tss Hx Hr IH]; intros rest Hb.
+  intros sep [sr Hs1] Hs2. induction 1 as [|x ts xs tss Hx Hr IH]; intros rest Hb.
   - cbn. rewrite prep_nil. reflexivity.
   - destruct Hr as [|y us ys uss Hy Hys].
     + cbn [py_join List.concat]. rewrite app_nil_r. apply Hx. exact Hb.
-    + change (py_join (String nl (String nl "")) (x :: y :: ys))
-        with (x ++ String nl (String nl "") ++ py_join (String nl (String nl "")) (y :: ys))%string.
-      rewrite !sapp_assoc. cbn [append].
-      rewrite (Hx _ (or_intror (ex_intro _ _ eq_refl))). rewrite !lex_nl.
-      rewrite IH by exact Hb. rewrite prep_prep. reflexivity.
+    + change (py_join sep (x :: y :: ys)) with (x ++ sep ++ py_join sep (y :: ys))%string.
+      rewrite !sapp_assoc.
+      rewrite Hx by (right; exists (sr ++ py_join sep (y :: ys) ++ rest)%string; rewrite Hs1; reflexivity).
+      rewrite Hs2. rewrite IH by exact Hb. rewrite prep_prep. reflexivity.
 Qed.
 
 Definition module_names_ok (m : module) : bool :=
@@ -212,7 +213,11 @@ Proof.
   destruct (omap _ fs) as [texts|]; [|discriminate E]. injection E as <-.
   destruct G as [tss [F2 EF]]. eexists. split; [exact EF|].
   unfold slex, clex. rewrite <- (sapp_nil_r (py_join _ texts)).
-  pose proof (lex_joined_functions texts tss F2 "" (or_introl eq_refl)) as J. unfold nl in J.
+  match goal with
+  | |- context [py_join ?sep texts] =>
+      pose proof (lex_joined_functions sep (ex_intro _ _ eq_refl) (fun X => eq_refl) texts tss F2 ""
+                    (or_introl eq_refl)) as J
+  end.
   rewrite J. cbn [CLexer.lex flush prep]. rewrite app_nil_r. reflexivity.
 Qed.
 
